@@ -254,7 +254,11 @@ theorem fromBase64_rfc (bs : List Nat) (hb : ∀ b ∈ bs, b < 256) :
     (by rw [List.length_replicate, Nat.zero_add]; exact reserve_enough _ hmod)
   rw [h1, Res.bind_ok]
   simp only [Nat.zero_add, List.take_zero, List.nil_append] at h2 ⊢
-  rw [h2]
+  have hj : bs.length ≤ out'.length := by
+    have := congrArg List.length h2
+    rw [List.length_take] at this
+    omega
+  rw [if_pos hj, h2]
 
 /-! ### bounds of every table read and every `out[j]` access, for arbitrary input bytes -/
 theorem b64Switch_ok (i c j n : Nat) (out : List Nat) (hj : j = 3 * (i / 4) + (i % 4 - 1))
@@ -281,22 +285,35 @@ theorem b64Switch_ok (i c j n : Nat) (out : List Nat) (hj : j = 3 * (i / 4) + (i
 
 theorem b64Loop_ok (rest : List Nat) : (∀ b ∈ rest, b < 256) → ∀ (i j n : Nat) (out : List Nat),
     i + rest.length = n → n % 4 = 0 → 3 * (n / 4) ≤ out.length → j = 3 * (i / 4) + (i % 4 - 1) →
-    ∃ r, b64Loop rest i j out = .ok r := by
+    ∃ r, b64Loop rest i j out = .ok r ∧ ∀ j' out', r = some (j', out') → j' ≤ out'.length := by
   induction rest with
-  | nil => intro _ i j n out _ _ _ _; exact ⟨_, rfl⟩
+  | nil =>
+    intro _ i j n out hl hn hcap hj
+    refine ⟨_, rfl, ?_⟩
+    intro j' out' e
+    simp only [Option.some.injEq, Prod.mk.injEq] at e
+    obtain ⟨rfl, rfl⟩ := e
+    simp only [List.length_nil] at hl
+    omega
   | cons b rest ih =>
     intro hb i j n out hl hn hcap hj
     obtain ⟨s, hs⟩ := b64Byte_ok b (hb b (List.mem_cons_self ..))
     rw [b64Loop, hs, Res.bind_ok]
+    simp only [List.length_cons] at hl
     cases s with
-    | stop => exact ⟨_, rfl⟩
-    | reject => exact ⟨_, rfl⟩
+    | stop =>
+      refine ⟨_, rfl, ?_⟩
+      intro j' out' e
+      simp only [Option.some.injEq, Prod.mk.injEq] at e
+      obtain ⟨rfl, rfl⟩ := e
+      omega
+    | reject => exact ⟨_, rfl, fun _ _ e => by cases e⟩
     | val c =>
-      simp only [List.length_cons] at hl
       obtain ⟨j', out', hsw, hlen, hj'⟩ := b64Switch_ok i c j n out hj (by omega) hn hcap
       simp only [hsw, Res.bind_ok]
       exact ih (fun x hx => hb x (List.mem_cons_of_mem _ hx)) (i + 1) j' n out' (by omega) hn (by omega) hj'
 
+/-- for every input the loop ends with `j` inside the reserved bytes: `result.resize(j)` stays in place -/
 theorem fromBase64_ok (inp : List Nat) (hb : ∀ b ∈ inp, b < 256) : ∃ r, fromBase64 inp = .ok r := by
   unfold fromBase64
   rw [lenRejects_eq]
@@ -304,11 +321,13 @@ theorem fromBase64_ok (inp : List Nat) (hb : ∀ b ∈ inp, b < 256) : ∃ r, fr
   · exact ⟨_, by rw [if_pos (by simpa using hm)]⟩
   · rw [if_neg (by simpa using hm)]
     have h4 : inp.length % 4 = 0 := by omega
-    obtain ⟨r, hr⟩ := b64Loop_ok inp hb 0 0 inp.length (List.replicate (b64Reserve inp.length) 0) (by omega) h4
+    obtain ⟨r, hr, hbound⟩ := b64Loop_ok inp hb 0 0 inp.length (List.replicate (b64Reserve inp.length) 0) (by omega) h4
       (by rw [List.length_replicate]; exact reserve_enough _ h4) (by omega)
     rw [hr, Res.bind_ok]
     cases r with
     | none => exact ⟨_, rfl⟩
-    | some p => exact ⟨_, rfl⟩
+    | some p =>
+      obtain ⟨j', out'⟩ := p
+      exact ⟨out'.take j', by simp only [if_pos (hbound j' out' rfl)]⟩
 
 end Nstd.Codec
